@@ -14,7 +14,7 @@ for d in sorted(os.listdir(S)):
     n=needs.get(d,{})
     meta={
      "seeded_id":d,"breaks_property":prop,
-     "origin":"written by an independent sub-agent that saw only the property text and a scratch worktree of /repo (nothing from /verif); round %d"%((int(d[-1])+1)//2),
+     "origin":"written by an independent sub-agent that saw only the property text and a scratch worktree of /repo (nothing from /verif); round %d"%((int(d.split("-")[1])+1)//2),
      "needs_to_manifest":n.get("needs",""),
      "in_domain": n.get("in_domain", True),
      "confirmed_by_me":{
